@@ -84,24 +84,30 @@ type faultWriter struct {
 }
 
 func (w *faultWriter) Write(p []byte) (int, error) {
-	if w.dead {
-		return 0, errInjected
+	// modes 4 and 5: modes 0 and 2 with io.ErrShortWrite as the error (what io.MultiWriter or a bufio.Writer report when
+	// what lies below them takes fewer bytes than it is given: a bounded buffer, a full device)
+	mode, fault := w.mode, errInjected
+	if mode == 4 || mode == 5 {
+		mode, fault = (mode-4)*2, io.ErrShortWrite
 	}
-	if w.k >= 0 && w.buf.Len()+len(p) > w.k && w.mode == 3 && !w.failedOnce {
+	if w.dead {
+		return 0, fault
+	}
+	if w.k >= 0 && w.buf.Len()+len(p) > w.k && mode == 3 && !w.failedOnce {
 		// a transient fault: this call fails (nothing taken), the following ones succeed
 		w.failedOnce = true
-		return 0, errInjected
+		return 0, fault
 	}
-	if w.mode == 3 && w.failedOnce {
+	if mode == 3 && w.failedOnce {
 		return w.buf.Write(p)
 	}
-	if w.k >= 0 && w.buf.Len()+len(p) > w.k && w.mode != 0 {
+	if w.k >= 0 && w.buf.Len()+len(p) > w.k && mode != 0 {
 		w.dead = true
-		if w.mode == 1 {
+		if mode == 1 {
 			w.buf.Write(p)
-			return len(p), errInjected
+			return len(p), fault
 		}
-		return 0, errInjected
+		return 0, fault
 	}
 	if w.k >= 0 && w.buf.Len()+len(p) > w.k {
 		n := w.k - w.buf.Len()
@@ -109,7 +115,7 @@ func (w *faultWriter) Write(p []byte) (int, error) {
 			n = 0
 		}
 		w.buf.Write(p[:n])
-		return n, errInjected
+		return n, fault
 	}
 	return w.buf.Write(p)
 }
@@ -125,7 +131,8 @@ type c18Case struct {
 	// LongLine: no fault; the document holds a line longer than 64 KiB and Cues cues
 	LongLine bool `json:"long_line,omitempty"`
 	Cues     int  `json:"cues,omitempty"`
-	// Mode: how the fault shows. Writers: 0 short count + error, 1 full count + error, 2 zero count + error.
+	// Mode: how the fault shows. Writers: 0 short count + error, 1 full count + error, 2 zero count + error, 3 one failing
+	// call only, 4 and 5: 0 and 2 with io.ErrShortWrite as the error.
 	// Readers: 0 error on the call after the last good byte, 1 error together with the last good bytes.
 	Mode int `json:"mode,omitempty"`
 	// Indent (writer "ttml"): "" = no option; "none", "tab", "two" = WriteToTTMLWithIndentOption("", "\t", "  ")
@@ -368,7 +375,7 @@ func TestC18(t *testing.T) {
 						})
 						ev.Sample("write-"+wf, map[string]any{"source_format": src, "source_document": clip(string(doc), 300), "writer": wf, "fault_offsets": fmt.Sprintf("0..%d", size)})
 						for k := 0; k <= size; k++ {
-							for mode := 0; mode < 4; mode++ {
+							for mode := 0; mode < 6; mode++ {
 								c := c18Case{Format: src, Doc: doc, Writer: wf, FaultAt: k, Mode: mode}
 								if wf == "ttml" {
 									// the offsets of the default rendering are swept under each per-call option in turn
@@ -572,7 +579,7 @@ func TestC18(t *testing.T) {
 			return
 		}
 		if rapid.IntRange(0, 2).Draw(rt, "dir") == 0 && format != "ts" {
-			c := c18Case{Format: format, Doc: doc, Writer: rapid.SampledFrom(writerFormats).Draw(rt, "writer"), FaultAt: rapid.IntRange(0, 6000).Draw(rt, "k"), Mode: rapid.IntRange(0, 3).Draw(rt, "wmode")}
+			c := c18Case{Format: format, Doc: doc, Writer: rapid.SampledFrom(writerFormats).Draw(rt, "writer"), FaultAt: rapid.IntRange(0, 6000).Draw(rt, "k"), Mode: rapid.IntRange(0, 5).Draw(rt, "wmode")}
 			if c.Writer == "ttml" {
 				c.Indent = rapid.SampledFrom([]string{"", "none", "tab", "two"}).Draw(rt, "indent")
 			}
